@@ -47,4 +47,13 @@ def main(argv):
 
 
 if __name__ == "__main__":
-    sys.exit(main(sys.argv[1:]))
+    try:
+        rc = main(sys.argv[1:])
+    except SystemExit:
+        raise
+    except BaseException as e:  # a tree that does not import, a crash of the harness: never exit 0 or 1
+        import traceback
+        traceback.print_exc()
+        print(f"HARNESS-ERROR {type(e).__name__}: {e}", file=sys.stderr)
+        rc = 2
+    sys.exit(rc)
